@@ -6,6 +6,7 @@ import checks_eval as ce
 import checks_text as ct
 import checks_api as ca
 import checks_cli as cc
+import checks_nd as cn
 
 T = "JPV.Tables."
 
@@ -132,5 +133,11 @@ PROPS = {
                   "JPV.Props.C07_slice"],
         tables=[T + "precedences_model", T + "precedence_consts", T + "binary_operators_model"],
         explore=ct.explore_c12,
+    ),
+    "C17": dict(
+        modules=["JPV.Props.C17"],
+        theorems=["JPV.Props.C17_shuffle_perm", "JPV.Props.C17_merge_interleaves", "JPV.Props.C17_children", "JPV.Props.C17_partial"],
+        tables=[T + "random_sites_model", T + "env_defaults_model"],
+        explore=cn.explore_c17,
     ),
 }
